@@ -4,6 +4,8 @@ from . import progress
 
 def run(ctx):
     progress.rule_blocking(ctx)
+    from . import splits
+    splits.rule_split_contents(ctx)
     progress.rule_driver_loops(ctx)
     progress.rule_ideal_early_exit(ctx)
     progress.rule_model_tracks_extension(ctx)
